@@ -647,7 +647,9 @@ class Interp:
             return len(v) > 0
         if isinstance(v, SStr):
             return self.ctx.decide(z3.Length(v.term) > 0)
-        if isinstance(v, (UFunc, FuncObj, BoundMethod, NativeFunc, ClassObj)):
+        if isinstance(v, UFunc):
+            return not getattr(v, "falsy", False)     # a callable object may define __len__ / __bool__
+        if isinstance(v, (FuncObj, BoundMethod, NativeFunc, ClassObj)):
             return True
         if isinstance(v, PList):
             if v.sym_n is None:
@@ -2278,11 +2280,13 @@ class Interp:
         if isinstance(c, PList):
             return self.list_contains(c, x)
         if isinstance(c, PSet):
+            self.check_hashable(x)
             acc = False
             for e in c.elems:
                 acc = self.or_(acc, self.equal(e, x))
             return acc
         if isinstance(c, PDict):
+            self.check_hashable(x)
             acc = False
             for k, _ in c.entries:
                 acc = self.or_(acc, self.equal(k, x))
